@@ -568,6 +568,10 @@ pub fn run(ctx: &Ctx, which: Which) -> Report {
             if which == Which::C01 && ctx.tier == Tier::Quick && (q.tags.contains(&"two-columns") || q.tags.contains(&"three-aggregates")) && gi >= 1 {
                 continue;
             }
+            // the public / protected outer joins are about which rows the rewriting keeps (C09): not in C01 quick
+            if which == Which::C01 && ctx.tier == Tier::Quick && q.tags.contains(&"composed") && q.tables.contains(&"ref") {
+                continue;
+            }
             let id = format!("{} [{}]", q.sql, name);
             if !ctx.wants(&id) {
                 continue;
